@@ -43,6 +43,9 @@ class Contract:
     inline: bool = False  # no contract of its own: body executed at every call site
     bv: bool = False  # execute with 64-bit vector integers
     ghost: Dict[str, str] = field(default_factory=dict)
+    # scope restrictions: assumed at entry of the verified body, NOT required of callers (reported as an unchecked
+    # assumption): paths outside the property's domain, e.g. "not self.console.is_jupyter"
+    scope: List[str] = field(default_factory=list)
     hints: List[str] = field(default_factory=list)  # extra facts proved then assumed before `ensures`
     self_sort: Optional[str] = None
     cover: bool = True  # vacuity guard: at least one normal return path must be satisfiable
